@@ -1,7 +1,7 @@
 (* Property C04 — every swap conserves tokens and routes each fee to its destination.
    Statements only; proofs in Proofs/SwapProofs.v. *)
 From MD.Model Require Import Base Ownable Epoch PoolMath Types PoolManager FarmManager Chain.
-From MD.Proofs Require Import PoolMathProofs SwapProofs BankProofs TxBalances.
+From MD.Proofs Require Import PoolMathProofs SwapProofs BankProofs TxBalances PmWf.
 
 (* Fee structure of every swap computation (both pool types): there is a gross output such that each fee is
    the configured share of it rounded DOWN, extra fees are floored one by one, and the receiver's amount is the
@@ -99,6 +99,13 @@ Theorem C04_swap_transaction_burns_exactly_the_burn_fee : forall w sender funds 
     forall d, supply (w_bank w') d = supply (w_bank w) d - ind (String.eqb ask d) (sc_burn_fee sc).
 Proof. exact swap_tx_supplies. Qed.
 
+(* the well-formedness the swap theorems assume (pm_wf: non-negative fees and reserves, two assets in a constant-product
+   pool) is not an assumption about reachable states: it holds in every world reachable from genesis by any history,
+   because every pool-manager message preserves it *)
+Theorem C04_swap_theorems_apply_in_every_reachable_world : forall g w0 ops,
+  genesis_world g = Ok w0 -> pm_wf (w_pm (run w0 ops)).
+Proof. exact reachable_pm_wf. Qed.
+
 Print Assumptions C04_fees_are_floored_shares.
 Print Assumptions C04_fee_never_more_than_share.
 Print Assumptions C04_reserve_update.
@@ -107,3 +114,4 @@ Print Assumptions C04_route_chain.
 Print Assumptions C04_route_messages.
 Print Assumptions C04_swap_transaction_moves_exactly_these_balances.
 Print Assumptions C04_swap_transaction_burns_exactly_the_burn_fee.
+Print Assumptions C04_swap_theorems_apply_in_every_reachable_world.
